@@ -249,7 +249,7 @@ def run(R):
             table[(cl[0][1], sv[0][1])] = val
         want = {(0, 0): 'None', (1, 0): 'h', (0, 1): 's', (1, 1): 'min(h,s)'}
         for k, v in want.items():
-            R.eq(table.get(k), v, 'C09.R4', 'min:%s' % (k,), site(b), 'effective timeout for (client %s, server %s)' % ('Some' if k[0] else 'None', 'Some' if k[1] else 'None'))
+            R.eq(table.get(k), v, 'C09.R4', 'min:%d-%d' % k, site(b), 'effective timeout for (client %s, server %s)' % ('Some' if k[0] else 'None', 'Some' if k[1] else 'None'))
         ubb, ut = b.call1(name='unwrap_or_else')
         R.check(is_call(b.origin(ut['args'][0]), name='try_parse_grpc_timeout'), 'C09.R4', 'parse-errors-ignored', site(b, ubb), 'try_parse_grpc_timeout(..).unwrap_or_else(..)')
         cl0 = strip_refs(b.origin(ut['args'][1]))
